@@ -511,6 +511,12 @@ func (c *Context) Sqrt(d, x *Decimal) (Condition, error) {
 	f.Exponent = int32(-nd)
 	nc := c.WithPrecision(workp)
 	nc.Rounding = RoundHalfEven
+	// The intermediate values are scaled into [0.1, 1): the caller's exponent
+	// range must not apply to them (with MinExponent near 0 they would be
+	// treated as subnormal and lose digits). It is restored for the final
+	// rounding.
+	nc.MinExponent = MinExponent
+	nc.MaxExponent = MaxExponent
 	ed := MakeErrDecimal(nc)
 	// Set approx to the first guess, based on whether e (the exponent part of x)
 	// is odd or even.
@@ -566,6 +572,8 @@ func (c *Context) Sqrt(d, x *Decimal) (Condition, error) {
 	d.Exponent += int32(e / 2)
 	nc.Precision = c.Precision
 	nc.Rounding = RoundHalfEven
+	nc.MinExponent = c.MinExponent
+	nc.MaxExponent = c.MaxExponent
 	res := nc.round(d, d)
 	if !res.Inexact() && d.Form == Finite {
 		// approx itself is a rounded value: when it happens to have no more
@@ -726,6 +734,11 @@ func (c *Context) Ln(d, x *Decimal) (Condition, error) {
 
 	nc := c.WithPrecision(p)
 	nc.Rounding = RoundHalfEven
+	// Intermediate values (series terms, corrections) can be far smaller than
+	// the result: the caller's exponent range must not apply to them. The
+	// final rounding below uses c.
+	nc.MinExponent = MinExponent
+	nc.MaxExponent = MaxExponent
 	ed := MakeErrDecimal(nc)
 
 	var tmp1, tmp2, tmp3, tmp4, z, resAdjust Decimal
@@ -981,6 +994,12 @@ func (c *Context) Exp(d, x *Decimal) (Condition, error) {
 	k.SetFinite(1, t)
 	nc := c.WithPrecision(cp)
 	nc.Rounding = RoundHalfEven
+	// The reduced argument and the series terms are much smaller than the
+	// result: the caller's exponent range must not apply to them (with
+	// MinExponent near 0 they would be rounded as subnormals). It is restored
+	// for the final rounding.
+	nc.MinExponent = MinExponent
+	nc.MaxExponent = MaxExponent
 	if _, err := nc.Quo(&r, x, &k); err != nil {
 		return 0, fmt.Errorf("Quo: %w", err)
 	}
@@ -1031,6 +1050,8 @@ func (c *Context) Exp(d, x *Decimal) (Condition, error) {
 	}
 	res |= ires
 	nc.Precision = c.Precision
+	nc.MinExponent = c.MinExponent
+	nc.MaxExponent = c.MaxExponent
 	res |= nc.round(d, d)
 	return c.goError(res)
 }
